@@ -14,6 +14,42 @@ from ..source import AnalysisError, FuncInfo, norm, walk_no_nested
 REPAIR_ROOT = "octave_mcp.core.repair:repair"
 
 
+def _own_outcome(run: Run) -> None:
+    """R11.9: what is stored into a node is what THIS node's value and THIS field's constraint gave"""
+    from ..cfg import CFG, reaching_assignments
+
+    run.rule("R11.9", "a node receives the outcome computed for itself: every value stored into `<node>.value` by the schema repair walk is, on every path, the first result of repair_value(value=<that node>.value, field_def=<the field's own definition>, ...) made in the same visit - never something read back from a memo / table filled by another node (an outcome depends on the field's allowed values, not only on the raw token)", 1)
+    rm = run.project.mod("core.repair")
+    n = 0
+    for q, fi in rm.functions.items():
+        stores = [a for a in walk_no_nested(fi.node) if isinstance(a, ast.Assign) and len(a.targets) == 1 and isinstance(a.targets[0], ast.Attribute) and a.targets[0].attr == "value" and isinstance(a.targets[0].value, ast.Name)]
+        if not stores:
+            continue
+        cfg = CFG(fi.node)
+        for st in stores:
+            node_name = st.targets[0].value.id  # type: ignore[union-attr]
+            n += 1
+            v = st.value
+            holder = next((nd.id for nd in cfg.nodes if nd.ast is st), None)
+            why = None
+            if not isinstance(v, ast.Name) or holder is None:
+                why = f"`{norm(v)[:50]}` is not a local bound from repair_value(...)"
+            else:
+                defs = reaching_assignments(cfg, holder, v.id)
+                if not defs:
+                    why = f"`{v.id}` may be unbound here"
+                for d in defs or []:
+                    val = getattr(d, "value", None)
+                    ok = isinstance(val, ast.Call) and ast.unparse(val.func).split(".")[-1] == "repair_value" and any((k.arg == "value" and ast.unparse(k.value) == f"{node_name}.value") for k in val.keywords) or (isinstance(val, ast.Call) and ast.unparse(val.func).split(".")[-1] == "repair_value" and val.args and ast.unparse(val.args[0]) == f"{node_name}.value")
+                    if not ok:
+                        why = f"one binding of `{v.id}` that reaches the store is `{norm(d)[:70]}`"
+            run.instance("R11.9", rm.loc(st), f"{q}: `{norm(st)}` takes the result of repair_value({node_name}.value, ...) on every path", ok=why is None)
+            if why:
+                run.violation("R11.9", rm, q, st, f"{q} stores a value into `{node_name}.value` that was not computed for this node: {why}. A repair outcome depends on the field's own constraint (its allowed values, its TYPE), so an outcome remembered from another field replaces a value that has no match in this field's ENUM, or with a value that fails it")
+    if n == 0:
+        raise AnalysisError("core.repair: no store into <node>.value found (the schema repair walk): anchor moved")
+
+
 def check(run: Run) -> None:
     res = Resolver(run.project)
     am = AstModel(run.project)
@@ -26,6 +62,7 @@ def check(run: Run) -> None:
     run.rule("R11.7", "the inline META case-fold of octave_write stores only into an existing META key, only the unique case-insensitive match, and records it in corrections", 3)
     run.rule("R11.8", "octave_write copies the RepairLog of repair(fix=True) into corrections before any later step that can fail: every path (exception edges included) from the repair call to the write of the file passes the copy", 1)
     check_write_reports(run, res, "R11.8", None)
+    _own_outcome(run)
 
     mod = run.project.mod("core.repair")
     reach = res.reachable_from([REPAIR_ROOT]) | {fi.fqn for fi in mod.functions.values()}
